@@ -297,3 +297,8 @@ func (h *VHist) ApplyWrite(op VOp) error {
 	}
 	return fmt.Errorf("harness: not a write op: %s", op.K)
 }
+
+// VFullSyncState exposes the in-memory full-sync state of a dataset (hidden state that belongs into canonical keys).
+func (ds *Dataset) VFullSyncState() string {
+	return fmt.Sprintf("started=%v id=%q lease=%v seen=%d", ds.fullSyncStarted, ds.fullSyncID, ds.fullSyncLease != nil, len(ds.fullSyncSeen))
+}
